@@ -14,43 +14,57 @@ namespace PM
 
 /-! ### close_fragment only adds fillers -/
 
-theorem closeLevel_text (S : Schema) (pt : Option TypeId) (frag r : List Node)
-    (h : closeLevel S pt frag = .ok r) : ftext r = ftext frag := by
+/-- what `closeLevel` returns: fillers in front, and — unless the end filler is skipped — fillers
+    behind -/
+theorem closeLevel_shape (S : Schema) (pt : Option TypeId) (skip : Bool) (frag r : List Node)
+    (h : closeLevel S pt skip frag = .ok r) :
+    ∃ fill fill2, ftext fill = [] ∧ ftext fill2 = [] ∧ r = fappend (fappend fill frag) fill2 ∧
+      (skip = true → fill2 = []) := by
   unfold closeLevel at h
   split at h
   · simp [throw, throwThe, MonadExceptOf.throw] at h
   · simp only at h
     obtain ⟨fo, hfo, h⟩ := FM.bind_ok h
     obtain ⟨fill, hfill, h⟩ := FM.bind_ok h
-    obtain ⟨q, _, h⟩ := FM.bind_ok h
-    obtain ⟨fo2, hfo2, h⟩ := FM.bind_ok h
-    obtain ⟨fill2, hfill2, h⟩ := FM.bind_ok h
-    have := pure_ok h
-    subst this
     have e1 : ftext fill = [] := by
       have := liftRaise_ok hfill
       subst this
       exact fillOpt_noText S _ _ _ _ _ hfo
-    have e2 : ftext fill2 = [] := by
-      have := liftRaise_ok hfill2
+    split at h
+    · have := pure_ok h
       subst this
-      exact fillOpt_noText S _ _ _ _ _ hfo2
-    simp [ftext_fappend, e1, e2]
+      exact ⟨fill, [], e1, rfl, by simp [fappend], fun _ => rfl⟩
+    · rename_i hsk
+      obtain ⟨q, _, h⟩ := FM.bind_ok h
+      obtain ⟨fo2, hfo2, h⟩ := FM.bind_ok h
+      obtain ⟨fill2, hfill2, h⟩ := FM.bind_ok h
+      have := pure_ok h
+      subst this
+      have e2 : ftext fill2 = [] := by
+        have := liftRaise_ok hfill2
+        subst this
+        exact fillOpt_noText S _ _ _ _ _ hfo2
+      exact ⟨fill, fill2, e1, e2, rfl, fun hs => absurd hs hsk⟩
 
-theorem closeFragment_text (S : Schema) (oo no : Nat) : ∀ (n : Nat) (frag : List Node) (pt : Option TypeId)
-    (r : List Node), closeFragment S oo no n frag pt = .ok r → ftext r = ftext frag
-  | 0, frag, pt, r, h => by
+theorem closeLevel_text (S : Schema) (pt : Option TypeId) (skip : Bool) (frag r : List Node)
+    (h : closeLevel S pt skip frag = .ok r) : ftext r = ftext frag := by
+  obtain ⟨fill, fill2, e1, e2, rfl, _⟩ := closeLevel_shape S pt skip frag r h
+  simp [ftext_fappend, e1, e2]
+
+theorem closeFragment_text (S : Schema) (oo no oe : Nat) : ∀ (n : Nat) (frag : List Node) (pt : Option TypeId)
+    (onEnd : Bool) (r : List Node), closeFragment S oo no oe n frag pt onEnd = .ok r → ftext r = ftext frag
+  | 0, frag, pt, onEnd, r, h => by
     unfold closeFragment at h
     split at h
-    · exact closeLevel_text S pt frag r h
+    · exact closeLevel_text S pt _ frag r h
     · have := pure_ok h
       subst this; rfl
-  | n + 1, [], pt, r, h => by
+  | n + 1, [], pt, onEnd, r, h => by
     simp [closeFragment, throw, throwThe, MonadExceptOf.throw] at h
-  | n + 1, first :: rest, pt, r, h => by
+  | n + 1, first :: rest, pt, onEnd, r, h => by
     unfold closeFragment at h
     obtain ⟨inner, hi, h⟩ := FM.bind_ok h
-    have ih := closeFragment_text S oo no n first.kids _ inner hi
+    have ih := closeFragment_text S oo no oe n first.kids _ _ inner hi
     have hn : ntext (first.withKids inner) = ntext first := by
       rw [ntext_withKids]
       cases first with
@@ -60,7 +74,7 @@ theorem closeFragment_text (S : Schema) (oo no : Nat) : ∀ (n : Nat) (frag : Li
     have e : ftext (first.withKids inner :: rest) = ftext (first :: rest) := by
       rw [ftext_cons, ftext_cons, hn]
     split at h
-    · rw [closeLevel_text S pt _ r h, e]
+    · rw [closeLevel_text S pt _ _ r h, e]
     · have := pure_ok h
       subst this
       exact e
@@ -68,7 +82,134 @@ theorem closeFragment_text (S : Schema) (oo no : Nat) : ∀ (n : Nat) (frag : Li
 /-- **`close_fragment` neither invents nor drops text** -/
 theorem closeSlice_text (S : Schema) (sl : Slice) (od : Nat) (c : List Node)
     (h : closeSlice S sl od = .ok c) : ftext c = ftext sl.content :=
-  closeFragment_text S _ _ _ _ _ c h
+  closeFragment_text S _ _ _ _ _ _ _ c h
+
+/-! ### close_fragment keeps both spines: the closed slice is well-formed -/
+
+theorem spineR_cons_of_ne_nil (x : Node) (rest : List Node) (h : rest ≠ []) :
+    spineR (x :: rest) = spineR rest := by
+  cases rest with
+  | nil => exact absurd rfl h
+  | cons y ys => simp [spineR]
+
+theorem spineR_append_of_ne_nil : ∀ (a b : List Node), b ≠ [] → spineR (a ++ b) = spineR b
+  | [], b, _ => rfl
+  | x :: a, b, h => by
+    rw [List.cons_append, spineR_cons_of_ne_nil x (a ++ b) (by simp [h]), spineR_append_of_ne_nil a b h]
+
+theorem spineR_addNode_ge (a : List Node) (c : Node) : spineR [c] ≤ spineR (addNode a c) := by
+  unfold addNode
+  split
+  · split
+    · simp [spineR]
+    · rw [spineR_append_of_ne_nil _ _ (by simp)]; exact Nat.le_refl _
+  · rw [spineR_append_of_ne_nil _ _ (by simp)]; exact Nat.le_refl _
+
+/-- `Fragment.append` never shortens the end spine of its second argument -/
+theorem spineR_fappend_ge (a b : List Node) : spineR b ≤ spineR (fappend a b) := by
+  unfold fappend
+  split
+  · simp [spineR]
+  · rename_i c rest
+    split
+    · exact Nat.le_refl _
+    · cases rest with
+      | nil => simpa using spineR_addNode_ge a c
+      | cons y ys =>
+        rw [spineR_append_of_ne_nil _ _ (by simp), spineR_cons_of_ne_nil c (y :: ys) (by simp)]
+        exact Nat.le_refl _
+
+theorem closeLevel_endSpine (S : Schema) (pt : Option TypeId) (skip : Bool) (frag r : List Node) (k : Nat)
+    (h : closeLevel S pt skip frag = .ok r) (hk : k ≤ spineR frag) (hskip : skip = false → k = 0) :
+    k ≤ spineR r := by
+  obtain ⟨fill, fill2, _, _, rfl, hs⟩ := closeLevel_shape S pt skip frag r h
+  cases skip with
+  | false => simp [hskip rfl]
+  | true =>
+    rw [hs rfl]
+    simp only [fappend]
+    exact Nat.le_trans hk (spineR_fappend_ge fill frag)
+
+/-- **the end spine survives**: on the end spine (`on_end_spine`), a fragment whose last-child
+    chain is at least `open_end - depth` deep keeps such a chain — no filler is appended behind a
+    node that stays open at the end -/
+theorem closeFragment_keeps_end_spine (S : Schema) (oo no oe : Nat) : ∀ (n : Nat) (frag : List Node)
+    (pt : Option TypeId) (onEnd : Bool) (r : List Node), n ≤ oo →
+    closeFragment S oo no oe n frag pt onEnd = .ok r → onEnd = true →
+    oe - (oo - n) ≤ spineR frag → oe - (oo - n) ≤ spineR r
+  | 0, frag, pt, onEnd, r, _, h, hon, hk => by
+    unfold closeFragment at h
+    split at h
+    · refine closeLevel_endSpine S pt _ frag r _ h hk fun hsk => ?_
+      simp only [hon, Bool.true_and, decide_eq_false_iff_not, Nat.not_lt] at hsk
+      omega
+    · have := pure_ok h
+      subst this; exact hk
+  | n + 1, [], pt, onEnd, r, _, h, _, _ => by
+    simp [closeFragment, throw, throwThe, MonadExceptOf.throw] at h
+  | n + 1, first :: rest, pt, onEnd, r, hn, h, hon, hk => by
+    unfold closeFragment at h
+    obtain ⟨inner, hi, h⟩ := FM.bind_ok h
+    have hk' : oe - (oo - (n + 1)) ≤ spineR (first.withKids inner :: rest) := by
+      cases rest with
+      | cons y ys =>
+        rw [spineR_cons_of_ne_nil _ _ (by simp)]
+        rwa [spineR_cons_of_ne_nil _ _ (by simp)] at hk
+      | nil =>
+        rcases Nat.eq_zero_or_pos (oe - (oo - (n + 1))) with h0 | h0
+        · omega
+        · cases first with
+          | text s m => simp [spineR] at hk; omega
+          | leaf t a m => simp [spineR] at hk; omega
+          | elem t a m kids =>
+            simp only [spineR, Node.withKids] at hk ⊢
+            have ih := closeFragment_keeps_end_spine S oo no oe n kids _ _ inner (by omega) hi
+              (by simp [hon]) (by simp only [Node.kids] at *; omega)
+            omega
+    split at h
+    · refine closeLevel_endSpine S pt _ _ r _ h hk' fun hsk => ?_
+      simp only [hon, Bool.true_and, decide_eq_false_iff_not, Nat.not_lt] at hsk
+      omega
+    · have := pure_ok h
+      subst this; exact hk'
+
+/-- **the start spine survives down to the new open depth**: no filler is put in front of a node
+    at a depth `≤ new_open` -/
+theorem closeFragment_keeps_start_spine (S : Schema) (oo no oe : Nat) : ∀ (n : Nat) (frag : List Node)
+    (pt : Option TypeId) (onEnd : Bool) (r : List Node), n ≤ oo → no ≤ oo →
+    closeFragment S oo no oe n frag pt onEnd = .ok r → n ≤ spineL frag → no - (oo - n) ≤ spineL r
+  | 0, frag, pt, onEnd, r, _, hno, h, _ => by
+    unfold closeFragment at h
+    split at h
+    · omega
+    · have := pure_ok h
+      subst this; omega
+  | n + 1, [], pt, onEnd, r, _, _, h, _ => by
+    simp [closeFragment, throw, throwThe, MonadExceptOf.throw] at h
+  | n + 1, first :: rest, pt, onEnd, r, hn, hno, h, hk => by
+    unfold closeFragment at h
+    obtain ⟨inner, hi, h⟩ := FM.bind_ok h
+    split at h
+    · omega
+    · have := pure_ok h
+      subst this
+      cases first with
+      | text s m => simp [spineL] at hk
+      | leaf t a m => simp [spineL] at hk
+      | elem t a m kids =>
+        simp only [spineL, Node.withKids] at hk ⊢
+        have ih := closeFragment_keeps_start_spine S oo no oe n kids _ _ inner (by omega) hno hi (by omega)
+        omega
+
+/-- **the slice `replace_range` builds from a well-formed slice is well-formed**: closing
+    `slice.content` to an open depth `≤ open_start` and keeping `open_end` -/
+theorem closeSlice_wf (S : Schema) (sl : Slice) (od : Nat) (c : List Node) (hwf : sl.wf = true)
+    (hod : od ≤ sl.openStart) (h : closeSlice S sl od = .ok c) : (Slice.mk c od sl.openEnd).wf = true := by
+  simp only [Slice.wf, Bool.and_eq_true, decide_eq_true_eq] at hwf ⊢
+  have h1 := closeFragment_keeps_start_spine S _ _ _ _ _ _ _ c (Nat.le_refl _) hod h hwf.1
+  have h2 := closeFragment_keeps_end_spine S _ _ _ _ _ _ _ c (Nat.le_refl _) h rfl (by simpa using hwf.2)
+  simp only [Nat.sub_self, Nat.sub_zero] at h1 h2
+  exact ⟨h1, h2⟩
 
 /-! ### the entries of `target_depths` -/
 
@@ -313,7 +454,7 @@ theorem replaceRangeR_calls (S : Schema) {doc : Node} {f t : Nat} {rf rt : RPos}
     (Rf : Resolved doc f rf) (Rt : Resolved doc t rt) (sl : Slice) (plan : RRPlan)
     (h : replaceRangeR S doc rf rt f t sl = some plan) :
     ∀ c ∈ plan.toCalls, Widened S rf rt f t c.1 c.2.1 ∧ ftext c.2.2.content = ftext sl.content ∧
-      c.2.2.openStart ≤ sl.openStart ∧ c.2.2.openEnd = sl.openEnd := by
+      c.2.2.openStart ≤ sl.openStart ∧ c.2.2.openEnd = sl.openEnd ∧ (sl.wf = true → c.2.2.wf = true) := by
   unfold replaceRangeR at h
   split at h
   · simp at h
@@ -334,12 +475,17 @@ theorem replaceRangeR_calls (S : Schema) {doc : Node} {f t : Nat} {rf rt : RPos}
           simp only [RRPlan.toCalls, List.mem_singleton] at hc'
           subst hc'
           refine ⟨rrTarget_widened S Rf Rt ins td _ _ (hok td (rotated_mem _ _ _ hm)) htd,
-            closeSlice_text S sl od _ hcl, by omega, hoe⟩
+            closeSlice_text S sl od _ hcl, by omega, hoe, fun hwf => ?_⟩
+          have := closeSlice_wf S sl od _ hwf hod hcl
+          obtain ⟨a, b, ⟨cc, os', oe'⟩⟩ := c'
+          simp only at hos hoe this ⊢
+          subst hos hoe
+          exact this
         · obtain ⟨cs, hcs, rfl⟩ := Option.map_eq_some_iff.mp h
           intro c hc
           obtain ⟨hw, he⟩ := rrFallback_widened S Rf Rt sl _ f t cs
             (fun x hx => hok x (List.mem_reverse.mp hx)) (.inl ⟨rfl, rfl⟩) hcs c hc
-          exact ⟨hw, by rw [he], by rw [he]; exact Nat.le_refl _, by rw [he]⟩
+          exact ⟨hw, by rw [he], by rw [he]; exact Nat.le_refl _, by rw [he], fun hwf => by rw [he]; exact hwf⟩
 
 /-! ### a widened range grows over structure only, and stays below an isolating ancestor -/
 
